@@ -248,7 +248,14 @@ pub struct World {
     coinbase_nonce: u64,
     pub steps: usize,
     pub sut_cfg: SutConfig,
+    /// Per-round operation budgets for time-sliced ingestion (cycled); empty = unsliced.
+    pub slice_budgets: Vec<u16>,
+    slice_pos: usize,
+    /// Statistics of the last settle: (rounds, paused rounds).
+    pub last_rounds: (u32, u32),
 }
+
+pub type PauseObserver<'a> = &'a mut dyn FnMut(&mut World, u32);
 
 fn to_outpoint(k: &OutPt) -> OutPoint {
     OutPoint {
@@ -274,6 +281,9 @@ impl World {
             coinbase_nonce: 0,
             steps: 0,
             sut_cfg,
+            slice_budgets: vec![],
+            slice_pos: 0,
+            last_rounds: (0, 0),
         }
     }
 
@@ -518,19 +528,58 @@ impl World {
         }
     }
 
-    /// Runs ingestion to completion (no time slicing) and syncs the anchor.
-    pub fn settle(&mut self, info: &mut StepInfo) {
-        match sut::ingest_round() {
-            Ok(sut::IngestResult::Paused) => info
-                .errors
-                .push("ingestion paused although the instruction counter does not advance".into()),
-            Ok(_) => {}
-            Err(p) => info.errors.push(format!("panic during ingestion: {}", p)),
+    /// Runs ingestion to completion and syncs the anchor. With `slice_budgets` set, every round
+    /// performs exactly k input/output operations before it pauses; `on_pause` is called after
+    /// every paused round.
+    pub fn settle(&mut self, info: &mut StepInfo, on_pause: PauseObserver) {
+        use ic_btc_canister::runtime::verif_hooks as hooks;
+        let mut rounds = 0u32;
+        let mut paused = 0u32;
+        loop {
+            hooks::performance_counter_reset();
+            if self.slice_budgets.is_empty() {
+                hooks::set_performance_counter_step(0);
+            } else {
+                let k = self.slice_budgets[self.slice_pos % self.slice_budgets.len()].max(1) as u64;
+                self.slice_pos += 1;
+                hooks::set_performance_counter_step(1_000_000_000u64.div_ceil(k + 1));
+            }
+            rounds += 1;
+            let r = sut::ingest_round();
+            hooks::set_performance_counter_step(0);
+            hooks::performance_counter_reset();
+            match r {
+                Ok(sut::IngestResult::Paused) => {
+                    paused += 1;
+                    if self.slice_budgets.is_empty() {
+                        info.errors.push(
+                            "ingestion paused although the instruction counter does not advance"
+                                .into(),
+                        );
+                        break;
+                    }
+                    on_pause(self, paused);
+                    if rounds > 100_000 {
+                        info.errors.push("ingestion did not finish after 100000 rounds".into());
+                        break;
+                    }
+                }
+                Ok(_) => break,
+                Err(p) => {
+                    info.errors.push(format!("panic during ingestion: {}", p));
+                    break;
+                }
+            }
         }
+        self.last_rounds = (rounds, paused);
         self.sync_anchor(info);
     }
 
     pub fn apply(&mut self, i: usize, op: &Op) -> StepInfo {
+        self.apply_with(i, op, &mut |_, _| {})
+    }
+
+    pub fn apply_with(&mut self, i: usize, op: &Op, on_pause: PauseObserver) -> StepInfo {
         let mut info = self.begin(i);
         self.steps += 1;
         match op {
@@ -556,7 +605,7 @@ impl World {
                 }
                 let id = self.model.add_block(p, block, d);
                 info.new_block = Some(id);
-                self.settle(&mut info);
+                self.settle(&mut info, on_pause);
                 let new_best = self.model.best_tip();
                 info.reorg = !self.model.is_ancestor_or_self(info.pre_best_tip, new_best)
                     && self.model.live.contains(&info.pre_best_tip);
@@ -564,7 +613,7 @@ impl World {
             Op::SetThreshold(t) => {
                 sut::set_threshold(*t as u32);
                 self.model.threshold = *t as u32;
-                self.settle(&mut info);
+                self.settle(&mut info, on_pause);
             }
             Op::Upgrade => {
                 info.upgraded = true;
